@@ -19,7 +19,8 @@ OUT = os.environ.get("VERIF_OUT", ROOT)
 # per property: list of batches (engine, variant, profile, quick runs, thorough runs)
 PLANS = {
     "C01": [("runsim", "asan", "lifecycle", 60000, 1200000), ("runsim", "noexc", "lifecycle", 60000, 800000),
-            ("runsim", "asan", "pointers", 10000, 200000), ("runsim", "asan", "leaks", 10000, 200000), ("runsim", "asan", "selection", 10000, 200000)],
+            ("runsim", "asan", "pointers", 10000, 200000), ("runsim", "asan", "leaks", 10000, 200000), ("runsim", "asan", "selection", 10000, 200000),
+            ("runsim", "plain", "process", 12000, 200000, ("C11",))],
     "C02": [("runsim", "asan", "selection", 160000, 2000000), ("runsim", "asan", "lifecycle", 20000, 300000), ("runsim", "noexc", "selection", 40000, 300000)],
     # (engine, variant, profile, quick runs, thorough runs[, properties whose oracles, in this batch, are also violations of the checked property])
     "C04": [("heapsim", "asan", "accounting", 80000, 1200000), ("heapsim", "noguard", "accounting", 40000, 500000), ("heapsim", "asan", "misuse", 20000, 200000), ("heapsim", "asan", "soundness", 20000, 200000),
